@@ -314,6 +314,68 @@ func RunC15(r *core.Run) {
 			w.Sample("laws", map[string]any{"a": string(a), "b": string(b), "c": string(c), "recased_a": string(arb), "permuted_a": string(prb)})
 		}
 	})
+	// long parameter / header lists (up to the 100-entry scratch of the compare helpers)
+	r.Stage("long-lists", r.Pick(20000, 600000), func(w *core.Worker, idx int64) {
+		rr := core.NewRand(r.Seed, 0xC15, 2, uint64(idx))
+		A := &gen.URIParts{Scheme: "sip", User: "u", Host: "h.example"}
+		np := []int{0, 1, 7, 8, 9, 31, 32, 33, 63, 64, 65, 66, 99, 100}[rr.Intn(14)]
+		nh := []int{0, 1, 7, 8, 9, 31, 32, 33, 63, 64, 65, 66, 99, 100}[rr.Intn(14)]
+		if rr.Intn(3) == 0 {
+			np, nh = rr.Intn(101), rr.Intn(101)
+		}
+		for i := 0; i < np; i++ {
+			kv := gen.KV{K: fmt.Sprintf("p%dx", i), V: fmt.Sprintf("v%d", rr.Intn(1000)), HasVal: rr.Intn(6) > 0}
+			if i == 3 && rr.Bool() {
+				kv = gen.KV{K: "transport", V: "tcp", HasVal: true}
+			}
+			A.Params = append(A.Params, kv)
+		}
+		for i := 0; i < nh; i++ {
+			A.Hdrs = append(A.Hdrs, gen.KV{K: fmt.Sprintf("h%dy", i), V: fmt.Sprintf("w%d", rr.Intn(1000)), HasVal: true})
+		}
+		a := []byte(A.String())
+		fail := func(cls, what string, o []byte) {
+			w.Fail(cls, func() *core.Violation {
+				return core.V(what, a, map[string]any{"params": np, "headers": nh, "other": string(o)})
+			})
+		}
+		for vi, V := range []*gen.URIParts{A, permute(rr, A), recase(rr, A)} {
+			vb := []byte(V.String())
+			for _, f := range []sipsp.URICmpFlags{0, sipsp.URICmpFlags(rr.Intn(64))} {
+				x, y := rawCmp(a, vb, f), rawCmp(vb, a, f)
+				w.Eval(2)
+				if x.pan != "" || y.pan != "" {
+					return
+				}
+				if !x.eq || !y.eq || x.err != 0 {
+					fail("long-list-variant-equal", fmt.Sprintf("URI with %d parameters and %d headers compared with its %s (flags %#x): %v / %v (err %v)", np, nh,
+						[]string{"identical copy", "permuted variant", "re-cased variant"}[vi], f, x.eq, y.eq, x.err), vb)
+					return
+				}
+			}
+		}
+		// one value changed somewhere => different (unless that component is skipped)
+		if np+nh > 0 {
+			B := A.Clone()
+			var skip sipsp.URICmpFlags
+			if k := rr.Intn(np + nh); k < np {
+				B.Params[k].V, B.Params[k].HasVal = "CHANGED", true
+				skip = sipsp.URICmpSkipParams
+			} else {
+				B.Hdrs[k-np].V = "CHANGED"
+				skip = sipsp.URICmpSkipHeaders
+			}
+			bb := []byte(B.String())
+			x, y, z := rawCmp(a, bb, 0), rawCmp(bb, a, 0), rawCmp(a, bb, skip)
+			w.Eval(3)
+			if x.pan == "" && (x.eq || y.eq || !z.eq) {
+				fail("long-list-one-value-changed", fmt.Sprintf("%d parameters / %d headers, one value changed: equal=%v/%v, with that component skipped equal=%v", np, nh, x.eq, y.eq, z.eq), bb)
+				return
+			}
+		}
+		w.Nontrivial(core.HashBytes(a))
+		w.Inc("long_lists")
+	})
 	r.Require("C15 equal pairs", r.Counter("equal_pairs"), 1000)
 	r.Require("C15 different pairs", r.Counter("different_pairs"), 1000)
 }
